@@ -130,6 +130,7 @@ func checkC16(c *Ctx) (string, error) {
 	p := w.Main("internal/goembed")
 	info := p.TypesInfo
 
+	checkEmbedSyntaxAndGlob(c, w.Main("internal/goembed"))
 	c.Rule("R16.1", "every predicate the go tool applies when resolving //go:embed patterns is consulted on every accepting path, with a rejecting outcome", 14)
 	c.Rule("R16.2", "resolved files and embed.FS entries are emitted in the order the standard embed package searches (sorted by directory, then element; no map order)", 4)
 	c.Rule("R16.3", "misplaced directives, multiple variables and a missing embed import are rejected", 3)
